@@ -105,7 +105,7 @@ def plan_st(draw, kinds, sq=False):
     if kind == "bool":
         plan["sub"] = draw(st.sampled_from(["species", "species", "random", "all"]))
     elif kind == "float":
-        plan["sub"] = draw(st.sampled_from(["generic", "generic", "generic", "one", "int", "positive"]))
+        plan["sub"] = draw(st.sampled_from(["generic", "generic", "generic", "one", "int", "positive", "offset"]))
     elif kind == "complex":
         plan["sub"] = draw(st.sampled_from(["generic", "generic", "phase"]))
     elif kind == "vector":
@@ -141,6 +141,15 @@ def condition_st(draw, plan, N, types, K, d):
             A = draw(hnp.arrays(np.int64, (N,), elements=st.integers(-5, 5)))
         elif sub == "positive":
             A = np.abs(draw(_real((N,)))) + 0.25
+        elif sub == "offset":
+            # a density- or size-like quantity: small fluctuations about a large mean, relative variance of a few 1e-6
+            # (the normalised column is still defined; a "looks constant" shortcut with a relative tolerance is not)
+            m = draw(st.sampled_from([1.2, 5.0, -3.0, 100.0]))
+            amp = draw(st.sampled_from([2e-3, 3e-3, 5e-3, 2e-2]))
+            A = m * (1.0 + amp * draw(hnp.arrays(np.float64, (N,), elements=st.integers(-64, 64).map(lambda k: k / 64.0),
+                                                 fill=st.nothing())))
+            if np.ptp(A) == 0:
+                A[0] = m * (1.0 + amp)
         else:
             A = draw(_real((N,)))
         return {"kind": "float", "sub": sub, "A": A, "ctype": None}
